@@ -61,6 +61,18 @@ def call(modname, funcname, case, env_extra):
     raise HarnessError("in worker: " + resp.get("harness", "?"))
 
 
+NATIVE_NONE = {"PYCOIN_NATIVE": "none", "VERIF_ASSERT_BACKEND": "pure"}
+
+
+def pure_python_variant(modname, funcname):
+    """an oracle that evaluates <modname>.<funcname> in a child interpreter started with PYCOIN_NATIVE=none (pure-Python
+    point arithmetic); the child refuses to start unless the shipped secp256k1 generator really is the pure one"""
+    def oracle(case):
+        return list(call(modname, funcname, case, NATIVE_NONE)) + ["child-backend=pure"]
+    oracle.__name__ = funcname + "_pure_python"
+    return oracle
+
+
 def _child_main(modname):
     out = os.fdopen(os.dup(1), "w", buffering=1)
     os.dup2(2, 1)                      # anything the code under test prints goes to stderr, not into the protocol
@@ -78,6 +90,13 @@ def _child_main(modname):
             raise RuntimeError("pycoin imported from %s, not %s" % (pycoin.__file__, repo))
         from vlib import core
         mod = __import__(modname, fromlist=["x"])
+        want = os.environ.get("VERIF_ASSERT_BACKEND")
+        if want:
+            from gen import ecgen
+            from pycoin.ecdsa.secp256k1 import secp256k1_generator
+            if ecgen.backend_of(secp256k1_generator) != want:
+                raise RuntimeError("child was to use the %s backend but secp256k1_generator is %s" % (
+                    want, ecgen.backend_of(secp256k1_generator)))
     except BaseException as ex:  # noqa
         import traceback
         out.write(json.dumps({"ready": False, "error": "%r\n%s" % (ex, traceback.format_exc())}) + "\n")
